@@ -369,6 +369,15 @@ def j5(rep, F, S):
             if not skip or key is None:
                 continue
             r["instances"] += 1
+            # the predicate that decides the omission must not look at the content of a present value: is_none and the
+            # is_empty of a collection lose nothing (absent and empty read back the same); anything else (a function
+            # of the crate, is_some_and ..) can drop a value the model holds
+            sk = str(skip).rsplit("::", 1)[-1]
+            if sk not in ("is_none", "is_empty"):
+                rep.add(Finding("J5", t, "%s:%s:predicate" % (key, fld),
+                                "%s omits JSON key \"%s\" (`%s`) when `%s` holds: a predicate other than is_none / "
+                                "is_empty can be true for a value that is present, which is then missing from the "
+                                "JSON and comes back as absent" % (G.short(t), key, fld, skip), a["file"], a["line"]))
             ty = missing.get(key)
             if ty is not None and not ty.startswith("std::option::Option<"):
                 rep.add(Finding("J5", t, "%s:%s" % (key, fld),
